@@ -25,7 +25,7 @@
    the real code under the property observers: the unchanged code passes, an implementation that has the bug fails.
      "no_inval" "partial_ok" "no_old_recv" "le_old" "no_old_send" "no_clear_req" "eph_in_dosend" "eph_ffwd"
      "no_rerequest" "bal_all_pubs" "no_required" "prefetch_first_hop" "no_unregister" "id_not_carried" "hello_counts"
-     "inval_complete_only" "C01b_state" "bal_unlock_on_enter" *)
+     "inval_complete_only" "C01b_state" "bal_unlock_on_enter" "bal_eph_reenables" *)
 EXTENDS Integers, Sequences, FiniteSets, TLC
 
 CONSTANTS
@@ -587,7 +587,9 @@ Expire(cl) == IF ConnTicks = 0 THEN cl ELSE SelectSeq(cl, LAMBDA r : r.age <= Co
 OutStat(cl, o) ==      \* (output do_send, # requested, max prev_id) of bound output o, None if it has no client
   LET ns == {n \in 1..Len(cl) : OutOf(cl[n].c) = o}
   IN [has |-> ns # {},
-      ok  |-> \A n \in ns : cl[n].req \/ cl[n].eph > 0,
+      ok  |-> IF D("bal_eph_reenables")       \* the fold (acc /\ req) \/ eph in client order: a listener after a worker re-enables
+              THEN \E k \in ns \cup {0} : (k = 0 \/ cl[k].eph > 0) /\ \A n \in ns : n > k => cl[n].req
+              ELSE \A n \in ns : cl[n].req \/ cl[n].eph > 0,
       nreq |-> Cardinality({n \in ns : cl[n].req}),
       prev |-> IF ns = {} THEN -1 ELSE CHOOSE p \in {cl[n].prev : n \in ns} \cup {-1} :
                                           \A n \in ns : cl[n].prev <= p]
@@ -788,7 +790,9 @@ Kill(f, keep) ==
   /\ stalled' = stalled \ {f}
   /\ nfaults' = nfaults + 1
   /\ lbl' = <<"kill", f, IF keep THEN 1 ELSE 0>>
-  /\ UNCHANGED <<oseq, inc, gvars>>
+  \* an origin killed before it ever published a frame has not visibly produced anything: its stream starts over
+  /\ oseq' = [oseq EXCEPT ![f] = IF IsOrigin(f) /\ plog[f] = {} THEN 0 ELSE @]
+  /\ UNCHANGED <<inc, gvars>>
 
 Restart(f) ==
   /\ pc[f] = "dead"
